@@ -199,12 +199,14 @@ class Unit:
         self.binders = {}
         self.binders_raw = {}
         self.params = {}
+        self.closure_ord = {}
         self.pending_replace_rename = {}
         lp = os.path.join(os.path.dirname(template_path), 'locals.json')
         base = json.load(open(lp)) if os.path.exists(lp) else {}
         self.base_binders = base.get('after_rules', {})
         self.base_binders_raw = base.get('raw', {})
         self.base_params = base.get('params', {})
+        self.base_closure_ord = base.get('closures', {})
         self.gen = Gen()
 
     def source(self, alias):
@@ -1036,9 +1038,19 @@ class Unit:
                 cands = [c for c in cls if c.get('callee') == callee]
                 k_ = int(k_ or 1)
                 if k_ < 1 or k_ > len(cands):
-                    self.lost_anchors.append('%s: closure %s not found (%d closures passed to %s)' % (path, n_, len(cands), callee))
-                    continue
-                c = cands[k_ - 1]
+                    # the callee changed (another method of the same family): if the function still has the same number of
+                    # closures, the annotation goes to the closure in the same position as at authoring time
+                    bo = self.base_closure_ord.get(path) or {}
+                    if bo.get('n') == len(cls) and n_ in (bo.get('ord') or {}):
+                        c = cls[bo['ord'][n_] - 1]
+                        log.append(dict(rule='closure-by-position', before=n_, after='closure %d of %d (callee now %s)' % (bo['ord'][n_], len(cls), c.get('callee')),
+                                        reason='the call the annotated closure was passed to is spelled differently; same closure position'))
+                    else:
+                        self.lost_anchors.append('%s: closure %s not found (%d closures passed to %s)' % (path, n_, len(cands), callee))
+                        continue
+                else:
+                    c = cands[k_ - 1]
+                self.closure_ord.setdefault(path, dict(n=len(cls), ord={}))['ord'][n_] = cls.index(c) + 1
             else:
                 if n_ < 1 or n_ > len(cls):
                     self.lost_anchors.append('%s: closure %d not found (%d closures)' % (path, n_, len(cls)))
